@@ -17,9 +17,11 @@ VARIABLES
     holder,  \* the actor whose file description holds the flock, 0 = nobody
     ver,     \* number of commits made through live handles (what the files contain)
     seen,    \* [Actors -> ver observed when the handle was opened]
+    ro,      \* actors whose handle was opened read-only (same exclusive lock; they do not commit)
+    created, \* the database exists (open / open_read_only need that)
     trace
 
-vars == <<st, holder, ver, seen, trace>>
+vars == <<st, holder, ver, seen, ro, created, trace>>
 
 Live == {a \in Actors : st[a] \in {"opening", "open"}}
 
@@ -27,6 +29,7 @@ Init ==
     /\ st = [a \in Actors |-> "none"]
     /\ holder = 0 /\ ver = 0
     /\ seen = [a \in Actors |-> 0]
+    /\ ro = {} /\ created = FALSE
     /\ trace = <<>>
 
 Log(e) == trace' = Append(trace, e)
@@ -36,7 +39,8 @@ OpenBegin(a) ==
     /\ st[a] = "none" /\ holder = 0
     /\ st' = [st EXCEPT ![a] = "opening"]
     /\ holder' = a
-    /\ UNCHANGED <<ver, seen>>
+    /\ created' = TRUE
+    /\ UNCHANGED <<ver, seen, ro>>
     /\ Log([a |-> "OpenBegin", actor |-> a])
 
 \* log replay done, handle returned
@@ -44,19 +48,19 @@ OpenEnd(a) ==
     /\ st[a] = "opening"
     /\ st' = [st EXCEPT ![a] = "open"]
     /\ seen' = [seen EXCEPT ![a] = ver]
-    /\ UNCHANGED <<holder, ver>>
+    /\ UNCHANGED <<holder, ver, ro, created>>
     /\ Log([a |-> "OpenEnd", actor |-> a, ver |-> ver])
 
 \* an open attempt while somebody holds the lock: Error::Locked, nothing changes
 OpenFail(a) ==
     /\ st[a] = "none" /\ holder # 0
-    /\ UNCHANGED <<st, holder, ver, seen>>
+    /\ UNCHANGED <<st, holder, ver, seen, ro, created>>
     /\ Log([a |-> "OpenFail", actor |-> a])
 
 Commit(a) ==
-    /\ st[a] = "open"
+    /\ st[a] = "open" /\ a \notin ro
     /\ ver' = ver + 1
-    /\ UNCHANGED <<st, holder, seen>>
+    /\ UNCHANGED <<st, holder, seen, ro, created>>
     /\ Log([a |-> "Commit", actor |-> a, ver |-> ver + 1])
 
 \* Drop for Db: everything persisted, then unlock
@@ -64,7 +68,8 @@ Drop(a) ==
     /\ st[a] = "open"
     /\ st' = [st EXCEPT ![a] = "none"]
     /\ holder' = 0
-    /\ UNCHANGED <<ver, seen>>
+    /\ ro' = ro \ {a}
+    /\ UNCHANGED <<ver, seen, created>>
     /\ Log([a |-> "Drop", actor |-> a])
 
 \* the holding process is killed: the kernel drops the lock
@@ -72,7 +77,8 @@ Die(a) ==
     /\ a \in Child /\ st[a] \in {"opening", "open"}
     /\ st' = [st EXCEPT ![a] = "none"]
     /\ holder' = 0
-    /\ UNCHANGED <<ver, seen>>
+    /\ ro' = ro \ {a}
+    /\ UNCHANGED <<ver, seen, created>>
     /\ Log([a |-> "Die", actor |-> a])
 
 Next ==
@@ -84,22 +90,26 @@ AtMostOneLive == Cardinality(Live) <= 1
 HolderIsLive == (holder # 0) <=> (Live = {holder})
 \* after the handle is dropped (or its process died) the directory can be opened again
 Reopenable == (Live = {}) => (\A a \in Actors : ENABLED OpenBegin(a))
-FailedOpenChangesNothing == [][\A a \in Actors : OpenFail(a) => UNCHANGED <<st, holder, ver, seen>>]_vars
+FailedOpenChangesNothing == [][\A a \in Actors : OpenFail(a) => UNCHANGED <<st, holder, ver, seen, ro, created>>]_vars
 
-ViewNoTrace == <<st, holder, ver, seen>>
+ViewNoTrace == <<st, holder, ver, seen, ro, created>>
 Bound == ver <= 3
 
 (* generation: an open is one call in the implementation (OpenBegin;OpenEnd fused) *)
-GenOpen(a) ==
-    /\ st[a] = "none" /\ holder = 0
+Modes == {"create", "write", "ro"}
+ModeOK(m) == m = "create" \/ created
+GenOpen(a, m) ==
+    /\ st[a] = "none" /\ holder = 0 /\ ModeOK(m)
     /\ st' = [st EXCEPT ![a] = "open"] /\ holder' = a /\ seen' = [seen EXCEPT ![a] = ver]
+    /\ ro' = IF m = "ro" THEN ro \cup {a} ELSE ro
+    /\ created' = TRUE
     /\ UNCHANGED ver
-    /\ Log([a |-> "Open", actor |-> a, ok |-> TRUE, ver |-> ver])
-GenOpenFail(a) ==
-    /\ st[a] = "none" /\ holder # 0
-    /\ UNCHANGED <<st, holder, ver, seen>>
-    /\ Log([a |-> "Open", actor |-> a, ok |-> FALSE, ver |-> ver])
-GenNext == \E a \in Actors : GenOpen(a) \/ GenOpenFail(a) \/ Commit(a) \/ Drop(a) \/ Die(a)
+    /\ Log([a |-> "Open", actor |-> a, ok |-> TRUE, ver |-> ver, mode |-> m])
+GenOpenFail(a, m) ==
+    /\ st[a] = "none" /\ holder # 0 /\ ModeOK(m)
+    /\ UNCHANGED <<st, holder, ver, seen, ro, created>>
+    /\ Log([a |-> "Open", actor |-> a, ok |-> FALSE, ver |-> ver, mode |-> m])
+GenNext == \E a \in Actors : (\E m \in Modes : GenOpen(a, m) \/ GenOpenFail(a, m)) \/ Commit(a) \/ Drop(a) \/ Die(a)
 GenSpec == Init /\ [][GenNext]_vars
 EmitTrace == TLCGet("level") < GenLen \/ PrintT("REPLAY " \o ToJson(trace))
 =============================================================================
